@@ -28,7 +28,7 @@ use crate::{
     },
 };
 
-pub const OUTCOMES: [&str; 13] = [
+pub const OUTCOMES: [&str; 14] = [
     "ok",
     "keepalive-idle-until-timeout",
     "client-reset-mid-request",
@@ -42,6 +42,7 @@ pub const OUTCOMES: [&str; 13] = [
     "h2-reset-mid-body",
     "h2-ok",
     "tcp-session",
+    "tcp-no-backend",
 ];
 
 #[derive(Clone, Debug, serde::Serialize, serde::Deserialize)]
@@ -50,9 +51,13 @@ pub struct Case {
     pub outcomes: Vec<String>,
     /// 0 = no storm; otherwise max_connections is set to this and twice as many clients connect
     pub storm: usize,
+    /// every cluster allows one connection per client address; after the sessions are over one
+    /// connection to each cluster must be admitted again
+    #[serde(default)]
+    pub per_ip: bool,
 }
 
-fn client_for(outcome: &str, i: usize, http: std::net::SocketAddr, https: std::net::SocketAddr, tcp: std::net::SocketAddr) -> Peer {
+fn client_for(outcome: &str, i: usize, http: std::net::SocketAddr, https: std::net::SocketAddr, tcp: std::net::SocketAddr, tcp2: std::net::SocketAddr) -> Peer {
     let name = format!("{outcome}#{i}");
     let get = |path: &str, host: &str| format!("GET {path} HTTP/1.1\r\nHost: {host}\r\n\r\n").into_bytes();
     let h2get = |path: &str| -> Vec<(String, String)> { vec![(":method".into(), "GET".into()), (":scheme".into(), "https".into()), (":path".into(), path.into()), (":authority".into(), "a.io".into())] };
@@ -97,6 +102,8 @@ fn client_for(outcome: &str, i: usize, http: std::net::SocketAddr, https: std::n
             s
         }
         "tcp-session" => vec![Step::Connect { to: tcp, from: None }, Step::Send { bytes: get("/size/50", "x"), splits: vec![] }, Step::ExpectH1 { count: 1, responses: true }, Step::Close, Step::Done],
+        // a TCP cluster that has no backend yet: the session cannot be connected
+        "tcp-no-backend" => vec![Step::Connect { to: tcp2, from: None }, Step::Send { bytes: get("/size/50", "x"), splits: vec![] }, Step::ExpectEof, Step::Done],
         other => crate::common::machinery_error(&format!("unknown outcome {other}")),
     };
     Peer::client(&name, script)
@@ -147,6 +154,7 @@ pub fn run_case(case: &Case, prefix: Vec<u32>, profile: ChoiceProfile) -> Run {
     let http = scen::addr(1, 8080);
     let https = scen::addr(1, 8443);
     let tcp = scen::addr(1, 7070);
+    let tcp2 = scen::addr(1, 7071);
     let back = scen::addr(2, 9090);
     let dead = scen::addr(3, 9191);
     // ---- configuration: HTTP + HTTPS + TCP listeners, a live cluster and a dead one
@@ -166,6 +174,21 @@ pub fn run_case(case: &Case, prefix: Vec<u32>, profile: ChoiceProfile) -> Run {
         RequestType::AddTcpFrontend(RequestTcpFrontend { cluster_id: "t1".into(), address: ta, ..Default::default() }),
         RequestType::AddBackend(AddBackend { cluster_id: "t1".into(), backend_id: "tb1".into(), address: back.into(), sticky_id: None, load_balancing_parameters: None, backup: None }),
     ];
+    let t2a: SocketAddress = tcp2.into();
+    let mut extra = extra;
+    extra.extend([
+        RequestType::AddTcpListener(ListenerBuilder::new_tcp(t2a).to_tcp(None).unwrap()),
+        RequestType::ActivateListener(ActivateListener { address: t2a, proxy: ListenerType::Tcp as i32, from_scm: false }),
+        RequestType::AddCluster(crate::cfgspace::cluster("t2")),
+        RequestType::AddTcpFrontend(RequestTcpFrontend { cluster_id: "t2".into(), address: t2a, ..Default::default() }),
+    ]);
+    if case.per_ip {
+        for id in ["c1", "dead", "t1", "t2"] {
+            let mut c = crate::cfgspace::cluster(id);
+            c.max_connections_per_ip = Some(1);
+            extra.push(RequestType::AddCluster(c));
+        }
+    }
     for r in extra {
         if let Err(e) = state.dispatch(&r.into()) {
             crate::common::machinery_error(&format!("C16 scenario state: {e}"));
@@ -189,7 +212,7 @@ pub fn run_case(case: &Case, prefix: Vec<u32>, profile: ChoiceProfile) -> Run {
                 vec![Step::Wait { ms: 500 }, Step::Connect { to: http, from: None }, Step::Send { bytes: b"GET /size/10 HTTP/1.1\r\nHost: a.io\r\n\r\n".to_vec(), splits: vec![] }, Step::ExpectH1 { count: 1, responses: true }, Step::Wait { ms: 2000 }, Step::Close, Step::Done],
             ));
         } else {
-            let mut p = client_for(o, i, http, https, tcp);
+            let mut p = client_for(o, i, http, https, tcp, tcp2);
             // leave room for the warm-up and the baseline metrics query
             p.script.insert(0, Step::Wait { ms: 500 });
             peers.push(p);
@@ -202,12 +225,31 @@ pub fn run_case(case: &Case, prefix: Vec<u32>, profile: ChoiceProfile) -> Run {
             vec![Step::Wait { ms: 8000 }, Step::Connect { to: http, from: None }, Step::Send { bytes: b"GET /size/10 HTTP/1.1\r\nHost: a.io\r\n\r\n".to_vec(), splits: vec![] }, Step::ExpectH1 { count: 1, responses: true }, Step::Close, Step::Done],
         ));
     }
+    if case.per_ip {
+        // long after every session ended (and t2 got its backend): one connection per cluster must be admitted
+        for (k, (name, to, host)) in [("c1", http, "a.io"), ("t1", tcp, "x"), ("t2", tcp2, "x")].into_iter().enumerate() {
+            peers.push(Peer::client(
+                &format!("admission-probe:{name}"),
+                vec![
+                    Step::Wait { ms: 100_000 + 500 * k as u64 },
+                    Step::Connect { to, from: None },
+                    Step::Send { bytes: format!("GET /size/10 HTTP/1.1\r\nHost: {host}\r\n\r\n").into_bytes(), splits: vec![] },
+                    Step::ExpectH1 { count: 1, responses: true },
+                    Step::Close,
+                    Step::Done,
+                ],
+            ));
+        }
+    }
     let q = |id: &str| worker::request(id, RequestType::QueryMetrics(QueryMetricsOptions { list: false, cluster_ids: vec![], backend_ids: vec![], metric_names: vec![], no_clusters: false, workers: false }));
     let script = vec![
         MainStep::AwaitPeerAt { peer: 1, pc: 5 },
         MainStep::Wait { ms: 100 },
         MainStep::Send(q("BASELINE")),
         MainStep::AwaitFinal("BASELINE".into()),
+        MainStep::Wait { ms: 90_000 },
+        MainStep::Send(worker::request("T2-BACKEND", RequestType::AddBackend(AddBackend { cluster_id: "t2".into(), backend_id: "t2b".into(), address: back.into(), sticky_id: None, load_balancing_parameters: None, backup: None }))),
+        MainStep::AwaitFinal("T2-BACKEND".into()),
         MainStep::AwaitPeersFor { ms: 150_000 },
         // every timeout of the configuration has passed by then (front 60 s, back 30 s, request 10 s)
         MainStep::Wait { ms: 70_000 },
@@ -229,7 +271,7 @@ pub fn run_case(case: &Case, prefix: Vec<u32>, profile: ChoiceProfile) -> Run {
         crate::common::machinery_error(&format!("worker creation failed: {e}"));
     }
     let mut violations: Vec<(String, String)> = vec![];
-    let id = if case.storm > 0 { format!("storm-{}", case.storm) } else { case.outcomes.join("+") };
+    let id = if case.storm > 0 { format!("storm-{}", case.storm) } else { format!("{}{}", case.outcomes.join("+"), if case.per_ip { "|per-ip" } else { "" }) };
     let mut flag = |k: String, d: String| violations.push((format!("C16|sessions|{k}"), d));
     if let Some(p) = &exec.subject_panic {
         flag(format!("worker-panic|{id}"), format!("worker panicked: {p}"));
@@ -264,6 +306,14 @@ pub fn run_case(case: &Case, prefix: Vec<u32>, profile: ChoiceProfile) -> Run {
             flag(format!("session-not-reclaimed:{}", p.name.split('#').next().unwrap_or("")), format!("client {} is still waiting at step {} 150 virtual seconds later (eof={} reset={})", p.name, p.pc, p.conn.eof, p.conn.reset));
         }
     }
+    if case.per_ip {
+        for p in sc.peers.iter().filter(|p| p.name.starts_with("admission-probe:")) {
+            let ok = p.conn.rx.starts_with(b"HTTP/1.1 200");
+            if !ok {
+                flag(format!("per-ip-slot-not-returned:{}|{id}", p.name.trim_start_matches("admission-probe:")), format!("with one connection per address allowed and every earlier session over, a new connection to cluster {} was not served ({} bytes back, connect_failed={})", p.name.trim_start_matches("admission-probe:"), p.conn.rx.len(), p.connect_failed));
+            }
+        }
+    }
     // ---- the storm: never more than max_connections served at once, and accepting resumes
     if case.storm > 0 {
         // a served client is one that got its response while holding its connection: count how many
@@ -294,18 +344,22 @@ pub fn run_case(case: &Case, prefix: Vec<u32>, profile: ChoiceProfile) -> Run {
 pub fn cases(tier: Tier) -> Vec<Case> {
     let mut v = vec![];
     for o in OUTCOMES {
-        v.push(Case { outcomes: vec![o.into()], storm: 0 });
+        v.push(Case { outcomes: vec![o.into()], storm: 0, per_ip: false });
     }
     let pairs: Vec<(usize, usize)> = (0..OUTCOMES.len()).flat_map(|i| (i..OUTCOMES.len()).map(move |j| (i, j))).collect();
     for (i, j) in pairs {
         if tier == Tier::Quick && (i + j) % 3 != 0 {
             continue;
         }
-        v.push(Case { outcomes: vec![OUTCOMES[i].into(), OUTCOMES[j].into()], storm: 0 });
+        v.push(Case { outcomes: vec![OUTCOMES[i].into(), OUTCOMES[j].into()], storm: 0, per_ip: false });
     }
-    v.push(Case { outcomes: OUTCOMES.iter().map(|s| s.to_string()).collect(), storm: 0 });
+    v.push(Case { outcomes: OUTCOMES.iter().map(|s| s.to_string()).collect(), storm: 0, per_ip: false });
     for s in [1usize, 3] {
-        v.push(Case { outcomes: vec![], storm: s });
+        v.push(Case { outcomes: vec![], storm: s, per_ip: false });
+    }
+    // per-address limits: each outcome twice side by side plus an HTTP exchange that shuffles session slots
+    for o in OUTCOMES {
+        v.push(Case { outcomes: vec![o.into(), o.into(), "ok".into(), o.into()], storm: 0, per_ip: true });
     }
     v
 }
@@ -366,7 +420,7 @@ pub fn replay_case(ctx: &Ctx, case: &Value) -> Coverage {
 pub fn debug(args: &crate::common::Args) {
     let outcomes: Vec<String> = args.extra.get("outcomes").map(|s| s.split(',').map(|x| x.to_owned()).collect()).unwrap_or_default();
     let storm: usize = args.extra.get("storm").and_then(|s| s.parse().ok()).unwrap_or(0);
-    let c = Case { outcomes, storm };
+    let c = Case { outcomes, storm, per_ip: args.extra.contains_key("perip") };
     println!("{c:?}");
     let r = worker::isolated(move || run_case(&c, vec![], profile())).unwrap();
     println!("obs={}", r.observation);
